@@ -4,6 +4,7 @@ SPEC = {
                  'EV.Index.sysIface', 'EV.Index.advanceTxs_spec', 'EV.Index.C01_flush',
                  'EV.Index.C01run_refinement', 'EV.Index.C01run_steps', 'EV.Index.C01run_observables',
                  'EV.Index.C01run_end_to_end', 'EV.Index.C01run_resolve', 'EV.Index.C01run_file_readers'],
+    'claims': {'exclude_tags': ['after_backup', 'after_restart', 'window'], 'violation_tags': ['utxo']},
     'suites': ['index'],
     'design_ref': 'DESIGN.md §6.0, §6 C01',
     'assumptions': [
